@@ -45,3 +45,15 @@ package kube
 //@   loop 0: invariant h.endpoints != nil && h.endpoints != old(h.endpoints)
 //@   loop 1: modifies mapof(h.endpoints)
 //@   loop 1: invariant h.endpoints != nil && h.endpoints != old(h.endpoints)
+
+// an update event is applied whenever the resource version CHANGED (versions are opaque strings: there is no order on them)
+//@ func (h *EventHandler) OnUpdate
+//@   property C13
+//@   requires h != nil && h.endpoints != nil && h.update != nil
+//@   ghost at entry: upd = false
+//@   ghost at entry: differs = false
+//@   ghost at after Update#0: upd = true
+//@   ghost at before Update#0: differs = (oldEndpoints.ResourceVersion != newEndpoints.ResourceVersion)
+//@   call Update#0: assert arg_endpoints == newEndpoints && oldEndpoints.ResourceVersion != newEndpoints.ResourceVersion
+//@   ghost at return#2: same = (oldEndpoints.ResourceVersion == newEndpoints.ResourceVersion)
+//@   call return#2: assert oldEndpoints.ResourceVersion == newEndpoints.ResourceVersion
